@@ -602,7 +602,7 @@ def run(ck):
         ck.cov["corpus_documents"] = len(corpus)
         run_docs(ck, hcmd, dcmd, token_strings(ck.scale(4, 6)), "token-strings", pool, chunk=6000)
         run_docs(ck, hcmd, dcmd, table_probes(3 if (intensify or not ck.quick()) else 2), "table-probes", pool, chunk=6000)
-        n = ck.scale(60000, 2500000) * (2 if intensify and ck.quick() else 1)
+        n = ck.scale(60000, 2000000) * (2 if intensify and ck.quick() else 1)
         maxdepth = ck.scale(64, 600)
         done = 0
         batch = 60000
